@@ -283,7 +283,70 @@ def task_autoref(t):
     return rep
 
 
-TASKS = dict(cr=task_const_rename, compose=task_compose, autoref=task_autoref)
+def task_wide(t):
+    """Functions of three variables embedded at every 3-subset of the levels of a manager with
+    10 declared variables: constants, renamings (also to variables outside the support, above,
+    between and below it) and single-variable composition."""
+    _, nvars, si, ns, focus = t
+    rep = run.Report()
+    rec = sweep.Rec(rep)
+    bdd, decl = sweep.wide_manager(nvars, env.SEED)
+    mine = sweep.shard(sweep.wide_subsets(nvars, 3), ns)[si]
+    for lv in mine:
+        names = tuple(decl[i] for i in lv)
+        others = [i for i in range(nvars) if i not in lv]
+        between = [i for i in others if lv[0] < i < lv[-1]]
+        ex = tuple(dict.fromkeys([decl[others[0]], decl[(between or others)[0]], decl[others[-1]]]))
+        U = Universe(names + ex)
+        b = sweep.Builder(bdd, U)
+        pas = list(partial_assignments(names))
+        rens = []
+        for a_ in names:
+            for c_ in names + ex:
+                if a_ != c_:
+                    rens.append({a_: c_})
+        rens.append({names[0]: names[1], names[1]: names[0]})
+        rens.append({names[0]: ex[0], names[2]: ex[-1]})
+        G = [U.var(ex[0]), U.var(names[1]) & U.var(ex[-1]), U.full ^ U.var(names[2])]
+        for fu in U.all_functions(names):
+            if focus is not None and [list(lv), fu] != list(focus):
+                continue
+            case0 = dict(task=t[:-1] + ([list(lv), fu],), levels=list(lv), u=U.fmt(fu))
+            try:
+                u = b.verified(fu)
+                bdd.incref(u)
+                for d in pas:
+                    rep.add('evaluations')
+                    if b.den(bdd.let(dict(d), u)) != U.restrict(fu, d):
+                        rec('wide-const', 'let with constants is wrong in a wide manager',
+                            dict(case0, d=d))
+                for d in rens:
+                    rep.add('evaluations')
+                    if b.den(bdd.let(dict(d), u)) != U.rename(fu, d):
+                        rec('wide-rename', 'let with names is wrong in a wide manager',
+                            dict(case0, d=d))
+                for x_ in names:
+                    for g in G:
+                        rep.add('evaluations')
+                        gr = b.verified(g)
+                        if b.den(bdd.let({x_: gr}, u)) != U.compose(fu, {x_: g}):
+                            rec('wide-compose', 'let with a function is wrong in a wide manager',
+                                dict(case0, d={x_: U.fmt(g)}))
+                bdd.decref(u)
+                if fu not in (0, U.full):
+                    rep.add('nontrivial', len(pas) + len(rens) + 9)
+            except Violation as e:
+                rec('wide-broken', e.what, case0)
+            except Exception as e:  # noqa
+                rec('wide-exception:' + type(e).__name__, 'raised %r' % (e,), case0)
+        bdd.collect_garbage()
+        b.reset()
+    if si == 0 and focus is None and mine:
+        rep.sample(dict(kind='wide manager', declared=nvars, support_levels=list(mine[len(mine) // 2])))
+    return rep
+
+
+TASKS = dict(cr=task_const_rename, compose=task_compose, autoref=task_autoref, wide=task_wide)
 
 
 def dispatch(t):
@@ -291,7 +354,7 @@ def dispatch(t):
 
 
 def plan(tier):
-    ts = []
+    ts = [('wide', 10, si, 16, None) for si in range(16)]
     if tier == 'quick':
         for oi in range(6):
             for ctx in ('K0', 'K1'):
